@@ -40,7 +40,8 @@ PrefixTable ==
 Prefixes == DOMAIN PrefixTable
 
 RefPart(s) == IF Len(s.ref) = 0 THEN "" ELSE "#" \o Join(s.ref, "/")
-Spell(s) == PrefixTable[s.prefix].text \o Join(s.segs, PrefixTable[s.prefix].sep) \o RefPart(s)
+\* trail: the path part ends in one more separator (a directory-style path, a URL with a trailing slash, host/org/name/)
+Spell(s) == PrefixTable[s.prefix].text \o Join(s.segs, PrefixTable[s.prefix].sep) \o (IF s.trail THEN PrefixTable[s.prefix].sep ELSE "") \o RefPart(s)
 
 Suffix == "-buildkite-plugin"
 
@@ -54,8 +55,8 @@ Canon(s) ==
 \* the token form of a canonical output (for idempotence on the model)
 CanonTokens(s) ==
     IF s.prefix # "none" \/ Len(s.segs) >= 3 THEN s
-    ELSE IF Len(s.segs) = 1 THEN [prefix |-> "none", segs |-> <<"github.com", "buildkite-plugins", s.segs[1] \o Suffix>>, ref |-> s.ref]
-    ELSE [prefix |-> "none", segs |-> <<"github.com", s.segs[1], s.segs[2] \o Suffix>>, ref |-> s.ref]
+    ELSE IF Len(s.segs) = 1 THEN [prefix |-> "none", segs |-> <<"github.com", "buildkite-plugins", s.segs[1] \o Suffix>>, ref |-> s.ref, trail |-> FALSE]
+    ELSE [prefix |-> "none", segs |-> <<"github.com", s.segs[1], s.segs[2] \o Suffix>>, ref |-> s.ref, trail |-> FALSE]
 
 (* ---------------- implementation-shaped: FullSource step by step ---------------- *)
 CanonImpl(s) ==
